@@ -372,6 +372,7 @@ func (e *explorer) mergeOut(out map[string]int) {
 }
 
 func TestCheck(t *testing.T) {
+	vk.UseT(t)
 	// the other parts of C09 (conc, concrace) run after this one: leave them room
 	r := vk.Start("C09", "model_checking", 150*time.Second, 23*time.Minute)
 	defer vk.CleanScratch()
